@@ -255,6 +255,27 @@ class Ctx:
             res[i::nproc] = o
         return res
 
+    def run_model_budget(self, cmd, lines, chunk=120, timeout=150, single_timeout=40, nproc=14, too_big="TOOBIG"):
+        """run_model_par for inputs where a few lines may take the (list-based, unoptimised) model very long: chunks that
+        exceed their budget are halved; a single line that exceeds `single_timeout` yields `too_big` (the caller counts it)."""
+        from concurrent.futures import ThreadPoolExecutor
+        self.model_timeouts = getattr(self, "model_timeouts", 0)
+
+        def go(ls, budget):
+            try:
+                return self.run_model(cmd, ls, budget)
+            except subprocess.TimeoutExpired:
+                if len(ls) == 1:
+                    self.model_timeouts += 1
+                    return [too_big]
+                h = len(ls) // 2
+                b = max(single_timeout, budget // 2)
+                return go(ls[:h], b) + go(ls[h:], b)
+        chunks = [lines[i:i + chunk] for i in range(0, len(lines), chunk)]
+        with ThreadPoolExecutor(nproc) as ex:
+            outs = list(ex.map(lambda c: go(c, timeout), chunks))
+        return [x for o in outs for x in o]
+
     def witness_hits(self):
         """KNOWN-FINDING lines: every recorded, unrepaired finding of this property whose witness input still
         makes the implementation behave as recorded (`reproduces_if`: substrings of the decoded harness output)."""
